@@ -13,7 +13,7 @@ use crate::exprm::{self, bin, num, un, BinOp, Radix, UnOp, Val, BINOPS, E, FUNCS
 use crate::report::{cov, machinery_fail, Report, Tier};
 use crate::sut::Outcome;
 
-const PROLOGUE: &str = ".equ k_five = 5\n.equ k_sum = 1 + 2\n.equ k_chain = k_sum * k_five - 1\n.equ K_Neg = -3\n.dseg\nlbl_a: .byte 2\nLbl_B: .byte 1\n.cseg\n";
+const PROLOGUE: &str = ".equ k_five = 5\n.equ k_sum = 1 + 2\n.equ k_chain = k_sum * k_five - 1\n.equ K_Neg = -3\n.equ dbl0 = 1 + 0\n.equ dbl1 = dbl0 + dbl0\n.equ dbl2 = dbl1 + dbl1\n.equ dbl3 = dbl2 + dbl2\n.equ dbl4 = dbl3 + dbl3\n.equ dbl5 = dbl4 + dbl4\n.equ dbl6 = dbl5 + dbl5\n.equ dbl7 = dbl6 + dbl6\n.equ dbl8 = dbl7 + dbl7\n.dseg\nlbl_a: .byte 2\nLbl_B: .byte 1\n.cseg\n";
 const EPILOGUE: &str = ".equ k_late = 9\n";
 
 struct XCase {
@@ -108,6 +108,55 @@ fn gen(tier: Tier) -> Vec<XCase> {
                     }
                 }
             }
+        }
+    }
+    // (c2b) two binary operators over boundary leaves: an overflow in the middle of a chain must
+    //       fail even when the end result would fit again
+    {
+        let bl: Vec<E> = [i64::MAX, i64::MIN + 1, i64::MIN, 1, -1, 2].iter().map(|x| num(*x)).collect();
+        let ops = [BinOp::Add, BinOp::Sub, BinOp::Mul, BinOp::Div, BinOp::Rem, BinOp::Shl, BinOp::Shr, BinOp::And, BinOp::Or, BinOp::Lt, BinOp::Eq, BinOp::LAnd];
+        for o1 in ops {
+            for o2 in ops {
+                for a in &bl {
+                    for b in &bl {
+                        for c in &bl {
+                            v.push(XCase { e: bin(o2, bin(o1, a.clone(), b.clone()), c.clone()), group: "two-op-boundary" });
+                            v.push(XCase { e: bin(o1, a.clone(), bin(o2, b.clone(), c.clone())), group: "two-op-boundary" });
+                        }
+                    }
+                }
+            }
+        }
+        // longer chains at the same level
+        let max = num(i64::MAX);
+        for n in [3usize, 4, 6] {
+            let mut e = max.clone();
+            for i in 0..n {
+                e = bin(if i % 2 == 0 { BinOp::Add } else { BinOp::Sub }, e, num(1));
+            }
+            v.push(XCase { e, group: "two-op-boundary" });
+            let mut e = num(1);
+            for i in 0..n {
+                e = bin(if i % 2 == 0 { BinOp::Sub } else { BinOp::Add }, e, if i == 0 { num(i64::MIN) } else { num(1) });
+            }
+            v.push(XCase { e, group: "two-op-boundary" });
+        }
+    }
+    // (c2c) many uses of symbols in one expression: constants defined by expressions, a chain of
+    //       definitions, more uses than any plausible nesting limit
+    {
+        let ks = E::Sym("k_sum".into(), 3);
+        let kc = E::Sym("k_chain".into(), 14);
+        for n in [10usize, 63, 64, 65, 66, 100, 200] {
+            let mut e = ks.clone();
+            for i in 1..n {
+                e = bin(if i % 3 == 0 { BinOp::Xor } else { BinOp::Add }, e, if i % 2 == 0 { ks.clone() } else { kc.clone() });
+            }
+            v.push(XCase { e, group: "many-symbol-uses" });
+        }
+        for d in 0..=8usize {
+            v.push(XCase { e: E::Sym(format!("dbl{}", d), 1 << d), group: "many-symbol-uses" });
+            v.push(XCase { e: bin(BinOp::Add, E::Sym(format!("dbl{}", d), 1 << d), E::Sym(format!("DBL{}", d), 1 << d)), group: "many-symbol-uses" });
         }
     }
     // (c3) thorough: all trees with three binary operators over three leaves (five shapes)
